@@ -115,6 +115,23 @@ func (f *Fosite) WriteRevocationResponse(ctx context.Context, rw http.ResponseWr
 
 		rw.WriteHeader(ErrInvalidClient.CodeField)
 		_, _ = rw.Write(js)
+	} else if errors.Is(err, ErrUnauthorizedClient) || errors.Is(err, ErrTemporarilyUnavailable) {
+		// The token was not revoked: it belongs to another client, or the storage failed and the token may still
+		// exist (https://tools.ietf.org/html/rfc7009#section-2.2.1). Answering 200 would tell the client otherwise.
+		rfcErr := ErrUnauthorizedClient
+		if errors.Is(err, ErrTemporarilyUnavailable) {
+			rfcErr = ErrTemporarilyUnavailable
+		}
+		rw.Header().Set("Content-Type", "application/json;charset=UTF-8")
+
+		js, err := json.Marshal(rfcErr)
+		if err != nil {
+			http.Error(rw, fmt.Sprintf(`{"error": "%s"}`, err.Error()), http.StatusInternalServerError)
+			return
+		}
+
+		rw.WriteHeader(rfcErr.CodeField)
+		_, _ = rw.Write(js)
 	} else {
 		// 200 OK
 		rw.WriteHeader(http.StatusOK)
